@@ -138,6 +138,10 @@ def check_join(ctx, case):
     d = pmap(items)
     if isinstance(v, str) and "\n" in v and vc != "text":
         return
+    if vc == "text" and d and (len(str(v)) + len(items)) % 2:
+        # parameter values handed over as vText objects (the README's attendee.params['cn'] = vText(...)): written raw like a str
+        from icalendar.prop import vText as _vText
+        d = {k: ([_vText(y) for y in x] if isinstance(x, list) else _vText(x)) for k, x in d.items()}
     try:
         cl = Contentline.from_parts(name, Parameters(d), value)
     except AssertionError:
@@ -275,7 +279,7 @@ def build_inject(pos, payload):
     elif pos == "param-list":
         put(ev, E, "attendee", vCalAddress("mailto:a@example.com"), {"MEMBER": ["mailto:m@example.com", payload, "x"]})
     elif pos == "param-text-prop":
-        put(todo, T, "summary", "s", {"ALTREP": payload, "LANGUAGE": "en"})
+        put(todo, T, "summary", "s", {"ALTREP": payload, "LANGUAGE": "en", "VALUE": "TEXT"})       # (VALUE naming the default type is a parameter like any other)
     elif pos == "cal-prop":
         put(cal, C, "x-wr-calname", payload)
     elif pos == "comment-alarm":
